@@ -47,7 +47,7 @@ func vfC15GenNuma(t *rapid.T) vfC15NumaScenario {
 	return s
 }
 
-func vfC15RunNuma(c *vt.Ctx, s vfC15NumaScenario) {
+func vfC15RunNuma(c g.Sink, s vfC15NumaScenario) {
 	c.Label("kind:" + s.Kind)
 	anno := map[string]string{}
 	if s.CPUSet != nil {
@@ -87,7 +87,7 @@ func vfC15RunNuma(c *vt.Ctx, s vfC15NumaScenario) {
 	}
 }
 
-func TestVerifC15NumaHints(t *testing.T) { vt.Run(t, vfC15GenNuma, g.NoPanic(vfC15RunNuma)) }
+func TestVerifC15NumaHints(t *testing.T) { vt.Run(t, vfC15GenNuma, g.NoPanic(g.Adapt(vfC15RunNuma))) }
 
 // ---------------------------------------------------------------------------------
 // The parsed hint in use: getENIIndex (pod + node from the API server, node-status cache
@@ -140,7 +140,7 @@ func vfC15GenIndex(t *rapid.T) vfC15IndexScenario {
 	return s
 }
 
-func vfC15RunIndex(c *vt.Ctx, s vfC15IndexScenario) {
+func vfC15RunIndex(c g.Sink, s vfC15IndexScenario) {
 	c.Label("kind:" + s.Kind)
 	pod := &corev1.Pod{ObjectMeta: metav1.ObjectMeta{Name: "p", Namespace: "ns"}}
 	pod.Spec.NodeName = "node-1"
@@ -221,4 +221,4 @@ func vfC15RunIndex(c *vt.Ctx, s vfC15IndexScenario) {
 	}
 }
 
-func TestVerifC15ENIIndex(t *testing.T) { vt.Run(t, vfC15GenIndex, g.NoPanic(vfC15RunIndex)) }
+func TestVerifC15ENIIndex(t *testing.T) { vt.Run(t, vfC15GenIndex, g.NoPanic(g.Adapt(vfC15RunIndex))) }
